@@ -20,7 +20,7 @@ RULE = (
     "(expression, converter) pairs; distinct_nontrivial = distinct expressions containing a constant-only atom or an Iff/Implies."
 )
 ASSUMPTIONS = ["arithmetic atoms are interpreted arithmetically (not as independent propositional atoms)"]
-BOUNDS = {"quick": dict(n=600, per=6, cap=64), "thorough": dict(n=12000, per=10, cap=128)}
+BOUNDS = {"quick": dict(n=600, per=6, cap=64), "thorough": dict(n=48000, per=10, cap=128)}
 
 
 def plan(tier, seed):
